@@ -53,6 +53,15 @@ let show_err = function
   | Create.ENestSharedCrossing -> "ENestSharedCrossing" | Create.ENestAlignment -> "ENestAlignment"
   | Create.ENestSustainNone -> "ENestSustainNone" | Create.EMergeEmpty -> "EMergeEmpty"
   | Create.EMergeAlignment -> "EMergeAlignment" | Create.ERepeatArg -> "ERepeatArg"
+let wfactor_of_sexp = function
+  | L [name; hidden; derived; deps; levels] ->
+    { Desugar.wf_name = explode (str_of_sexp name); Desugar.wf_hidden = bool_of_sexp hidden; Desugar.wf_derived = bool_of_sexp derived;
+      Desugar.wf_deps = list_of_sexp nat_of_sexp deps;
+      Desugar.wf_levels = list_of_sexp (function L [n; w] -> (explode (str_of_sexp n), nat_of_sexp w) | _ -> failwith "level") levels }
+  | _ -> failwith "wfactor"
+let show_wfactor f =
+  "(" ^ show_str f.Desugar.wf_name ^ " " ^ show_bool f.Desugar.wf_hidden ^ " " ^ show_bool f.Desugar.wf_derived ^ " "
+  ^ show_natlist f.Desugar.wf_deps ^ " " ^ show_list (fun (n, w) -> "(" ^ show_str n ^ " " ^ show_nat w ^ ")") f.Desugar.wf_levels ^ ")"
 let show_wres = function
   | Trials.WOk ws -> show_zlist ws | Trials.WErrEqual -> "ErrEqual" | Trials.WErrDiv -> "ErrDiv" | Trials.WErrIndex -> "ErrIndex"
 let () =
@@ -71,6 +80,15 @@ let () =
     ^ show_natlist (Stdlib.List.map (Trials.crossing_size_no_excl fb) fb.Flat.fl_crossings) ^ " "
     ^ show_bool (TrialsWf.wf_trials_b fb) ^ " "
     ^ show_nat (match fb.Flat.fl_alignment with Flat.PostPreamble -> TrialsWf.doc_need_post fb | _ -> TrialsWf.doc_need_own fb)
+    | _ -> "!args");
+  (* (desugar DESIGN CROSSINGS) -> (design') (crossings') ; (comboweights DESIGN c) -> size (weights...) *)
+  register "desugar" (function [d; crs] ->
+    let (d', crs') = Desugar.desugar (list_of_sexp wfactor_of_sexp d) (natll_of_sexp crs) in
+    show_list show_wfactor d' ^ " " ^ show_list show_natlist crs'
+    | _ -> "!args");
+  register "comboweights" (function [d; c] ->
+    let design = list_of_sexp wfactor_of_sexp d in let c = list_of_sexp nat_of_sexp c in
+    show_nat (Desugar.crossing_size_wo design c) ^ " " ^ show_natlist (Desugar.combo_weights design c)
     | _ -> "!args");
   register "trreq" (function [f; fi; size] ->
     show_opt show_nat (Trials.trials_required (Wire_flat.flat_of_sexp f) (nat_of_sexp fi) (nat_of_sexp size)) | _ -> "!args");
